@@ -37,7 +37,7 @@ type c19Scenario struct {
 	Jobs  int    `json:"jobs"`  // jobs per submitter
 	Dur   int    `json:"dur"`   // 0 none, 1 Gosched, 2 50us, 3 2ms, 4 mixed
 	Procs int    `json:"procs"` // GOMAXPROCS of the child
-	Mode  string `json:"mode"`  // drain | race | saturated | idle | tcp-drain | tcp-saturated (pool inside a real transport.TarsServer)
+	Mode  string `json:"mode"`  // drain | race | saturated | idle | tcp-drain | tcp-saturated | udp-drain | udp-saturated (pool inside a real transport.TarsServer)
 	Seed  int64  `json:"seed"`
 }
 
@@ -95,6 +95,9 @@ const c19Slack = 10 * time.Second // every wait of a scenario that normally take
 func c19RunScenario(sc c19Scenario) c19ChildOut {
 	if strings.HasPrefix(sc.Mode, "tcp-") {
 		return c19RunTCP(sc)
+	}
+	if strings.HasPrefix(sc.Mode, "udp-") {
+		return c19RunUDP(sc)
 	}
 	total := sc.Subs * sc.Jobs
 	lg := &c19Log{ev: make([]int64, 4*total+64)}
@@ -534,6 +537,9 @@ func c19Gen(tier string, rng *rand.Rand) []c19Case {
 		sc := c19Scenario{W: w, Q: q, Mode: mode, Seed: rng.Int63(), Procs: procs[rng.Intn(3)], Dur: rng.Intn(5)}
 		sc.Subs = 1 + rng.Intn(16)
 		switch mode {
+		case "udp-drain", "udp-saturated":
+			sc.Subs = 1 + rng.Intn(3)
+			sc.Jobs = (20+rng.Intn(40))/sc.Subs + 1
 		case "tcp-drain", "tcp-saturated":
 			sc.Subs = 1 + rng.Intn(4)
 			sc.Jobs = (30+rng.Intn(60))/sc.Subs + 1
@@ -583,6 +589,15 @@ func c19Gen(tier string, rng *rand.Rand) []c19Case {
 			}
 		}
 	}
+	// the pool behind the UDP handler: MaxInvoke in {1,2,4}, small queues, bursts larger than W+1+Q
+	for _, w := range []int{1, 2, 4} {
+		for _, q := range []int{0, 1, 3} {
+			cs = append(cs, mk(w, q, "udp-saturated"))
+			if tier == "thorough" || q != 1 {
+				cs = append(cs, mk(w, q, "udp-drain"))
+			}
+		}
+	}
 	extra := 200
 	if tier == "thorough" {
 		extra = 4000
@@ -590,6 +605,10 @@ func c19Gen(tier string, rng *rand.Rand) []c19Case {
 	for i := 0; i < extra; i++ {
 		if i%16 == 15 {
 			cs = append(cs, mk(ws[rng.Intn(5)], qs[rng.Intn(4)], []string{"tcp-drain", "tcp-saturated"}[rng.Intn(2)]))
+			continue
+		}
+		if i%16 == 7 {
+			cs = append(cs, mk([]int{1, 2, 4, 8}[rng.Intn(4)], []int{0, 1, 3, 8}[rng.Intn(4)], []string{"udp-drain", "udp-saturated"}[rng.Intn(2)]))
 			continue
 		}
 		cs = append(cs, mk(ws[rng.Intn(5)], qs[rng.Intn(5)], modes[rng.Intn(3)]))
